@@ -14,7 +14,7 @@ log=$B/build.log
 fail() { echo "BUILD-FAILED stage=$1" ; tail -40 $log; exit 3; }
 
 # 1. table translator
-( cd $V/tools/gotables && go build -o $B/gotables . ) >>$log 2>&1 || fail gotables-build
+( cd $V/tools/gotables && go build -o $B/gotables.new . && mv -f $B/gotables.new $B/gotables ) >>$log 2>&1 || fail gotables-build
 $B/gotables /repo $B/Tables.v.new >>$log 2>&1 || { echo "BUILD-FAILED stage=gotables"; cat $log; exit 4; }
 cmp -s $B/Tables.v.new $V/coq/gen/Tables.v || cp $B/Tables.v.new $V/coq/gen/Tables.v
 
@@ -35,12 +35,14 @@ if [ ! -f $B/extract.stamp ] || [ -n "$(find $V/coq -name '*.vo' -newer $B/extra
   touch $B/extract.stamp
 fi
 ( cd $V/ocaml && timeout 900 dune build ./driver.exe ) >>$log 2>&1 || fail ocaml
-cp -f $V/ocaml/_build/default/driver.exe $B/driver
+cmp -s $V/ocaml/_build/default/driver.exe $B/driver || { cp -f $V/ocaml/_build/default/driver.exe $B/driver.new && mv -f $B/driver.new $B/driver; }
 
 # 4. Go harness against the current /repo
-( cd $V/harness && cp /repo/go.sum . && go build -o $B/harness . ) >>$log 2>&1 || { echo "BUILD-FAILED stage=harness"; tail -30 $log; exit 6; }
+( cd $V/harness && cp /repo/go.sum . && go build -o $B/harness.new . ) >>$log 2>&1 || { echo "BUILD-FAILED stage=harness"; tail -30 $log; exit 6; }
+cmp -s $B/harness.new $B/harness && rm -f $B/harness.new || mv -f $B/harness.new $B/harness
 # the real CLI, for C19
-( cd /repo && go build -o $B/tsh . ) >>$log 2>&1 || { echo "BUILD-FAILED stage=tsh"; tail -30 $log; exit 7; }
+( cd /repo && go build -o $B/tsh.new . ) >>$log 2>&1 || { echo "BUILD-FAILED stage=tsh"; tail -30 $log; exit 7; }
+cmp -s $B/tsh.new $B/tsh && rm -f $B/tsh.new || mv -f $B/tsh.new $B/tsh
 mkdir -p $B/std
 for f in /repo/std/*.tsh; do cmp -s $f $B/std/$(basename $f) || { cp $f $B/std/.$(basename $f).tmp && mv $B/std/.$(basename $f).tmp $B/std/$(basename $f); }; done
 echo BUILD-OK
